@@ -344,6 +344,24 @@ class Universe:
                 if fkind == "async":
                     async def fcb() -> Any:
                         return make()
+                elif fkind in ("uobj", "auobj"):
+                    import dataclasses
+
+                    @dataclasses.dataclass
+                    class _Factory:
+                        """a callable value object: it defines equality and is therefore NOT hashable"""
+
+                        tag: str
+
+                        def __call__(self) -> Any:
+                            if fkind == "auobj":
+                                async def _c() -> Any:
+                                    return make()
+
+                                return _c()
+                            return make()
+
+                    fcb = _Factory(flabel)
                 elif fkind == "alambda":
                     async def _coro() -> Any:
                         return make()
@@ -509,7 +527,7 @@ class Universe:
             if any((t, name) in m.fac for t in types):
                 return ("exc", "ResourceConflict")
             # ("kind" keeps states reached through differently shaped factory callables apart: they do not have the same futures)
-            f = {"label": flabel, "types": types, "name": name, "async": fkind in ("async", "alambda"), "kind": fkind}
+            f = {"label": flabel, "types": types, "name": name, "async": fkind in ("async", "alambda", "auobj"), "kind": fkind}
             for t in types:
                 m.fac[(t, name)] = f
             m.events.append((types, name, "d" + flabel, True))
